@@ -1,6 +1,7 @@
 import Pyunicorn.Lemmas.Window
 import Pyunicorn.Lemmas.WindowShuffle
 import Pyunicorn.Lemmas.WindowFloat
+import Pyunicorn.Lemmas.WindowFloat64
 import Pyunicorn.Generated.ArithC13
 /-!
 # C13 — Data windows select exactly the requested samples; anomalies sum
@@ -1807,5 +1808,121 @@ theorem float_bounds_exact_case (t : SumTree) :
 samples as leaves and depth `k − 1` -/
 example : (SumTree.seq 3 [1, 4, 1, 5]).leaves = [3, 1, 4, 1, 5] ∧ (SumTree.seq 3 [1, 4, 1, 5]).depth = 4 :=
   SumTree.seq_spec 3 [1, 4, 1, 5]
+
+/-! ## 14. Round 5: `phase_mean()` / `anomaly()` as executed in IEEE binary64
+
+The abstract arithmetic of §13 is instantiated: `rn64` is round-to-nearest-even to 53 bits for
+either sign (C09's `rn53`), `flAdd / flSub / flDiv` are the correctly rounded operations, and
+`flPhaseMeanLoop` / `flAnomalyOf` are the loops of `phase_mean()` / `anomaly()` with every operation
+rounded, the sum over axis 0 running row after row as `np.add.reduce` does on a C-ordered block.
+The driver executes this model and the harness compares it bit for bit with the real float64
+results.  (Exponent range unbounded: no overflow, no underflow of the division.) -/
+
+/-- **IEEE binary64 round-to-nearest-even satisfies the standard model** with `u = ud = 2⁻⁵³`:
+every correctly rounded `+`, `-`, `/` has relative error at most `2⁻⁵³`, for operands and results
+of either sign (the hypothesis of the round-4 bounds is a theorem for this arithmetic) -/
+theorem ieee_double_standard_model (a b : ℚ) :
+    |flAdd a b - (a + b)| ≤ (1 / 2 ^ 53) * |a + b|
+      ∧ |flSub a b - (a - b)| ≤ (1 / 2 ^ 53) * |a - b|
+      ∧ |flDiv a b - a / b| ≤ (1 / 2 ^ 53) * |a / b| :=
+  ⟨rn64_err _, rn64_err _, rn64_err _⟩
+
+/-- rounding is sign-symmetric (so anomalies of the negated observable are the negated anomalies) -/
+theorem ieee_rounding_odd (x : ℚ) : rn64 (-x) = -rn64 x := rn64_neg x
+
+/-- **shape and NaN rows of the binary64 `phase_mean()`**: `c` rows; row `i` is a NaN row exactly
+when the rational model's row is (the phase has no sample), otherwise it has one entry per node -/
+theorem ieee_phase_mean_shape (c n : Nat) (obs : Mat) (h : ∀ r ∈ obs, r.length = n) :
+    (flPhaseMeanLoop c n obs).length = c
+      ∧ ∀ i, i < c →
+          (((flPhaseMeanLoop c n obs)[i]? = some none ↔ (phaseMeanLoop c n obs)[i]? = some none)
+            ∧ ∀ mf, (flPhaseMeanLoop c n obs)[i]? = some (some mf) → mf.length = n) := by
+  rw [flPhaseMeanLoop_eq, phaseMeanLoop_eq]
+  refine ⟨by simp, fun i hi => ?_⟩
+  simp only [phaseMean, List.getElem?_map, List.getElem?_range hi, Option.map_some,
+    Option.some.injEq]
+  have hrows : ∀ r ∈ everyNth c i obs, r.length = n := fun r hr => h r (mem_everyNth _ _ _ _ hr)
+  cases hs : everyNth c i obs with
+  | nil => simp [flColMean, flColSum, colMean]
+  | cons r rs =>
+    rw [hs] at hrows
+    refine ⟨by simp [flColMean, flColSum, colMean], fun mf hmf => ?_⟩
+    have h0 : 0 < n ∨ n = 0 := by omega
+    rcases h0 with h0 | h0
+    · exact (flColMean_getD n 0 h0 r rs hrows mf hmf).2
+    · simp only [flColMean, flColSum, Option.map_some, Option.some.injEq] at hmf
+      subst hmf
+      have hr : r.length = 0 := by rw [hrows r (by simp), h0]
+      have : r = [] := List.length_eq_zero_iff.1 hr
+      subst this
+      have : ∀ (rs : Mat), rs.foldl (fun acc row => List.zipWith flAdd acc row) ([] : Vec) = [] := by
+        intro rs; induction rs with
+        | nil => rfl
+        | cons x xs ih => simpa using ih
+      simp [this, h0]
+
+/-- **the binary64 phase mean as executed is within the proved bound of the exact phase mean**:
+for every cycle length, phase `i` with `k ≥ 1` samples and node `j`,
+`|m̂[i][j] − m[i][j]| ≤ ((1+2⁻⁵³)^k − 1) · mean|observable[i::c, j]|`, where `m̂` is the row the
+float loop stores and `m` the row of the rational model (`phaseMeanLoop`) -/
+theorem ieee_phase_mean_error (c n i j : Nat) (obs : Mat) (h : ∀ r ∈ obs, r.length = n)
+    (hi : i < c) (hj : j < n) (m mf : Vec)
+    (hm : (phaseMeanLoop c n obs)[i]? = some (some m))
+    (hf : (flPhaseMeanLoop c n obs)[i]? = some (some mf)) :
+    |mf.getD j 0 - m.getD j 0|
+      ≤ ((1 + 1 / 2 ^ 53) ^ ((everyNth c i obs).length - 1) * (1 + 1 / 2 ^ 53) - 1)
+          * (((column (everyNth c i obs) j).map (|·|)).sum / (everyNth c i obs).length) := by
+  rw [phaseMeanLoop_eq] at hm
+  rw [flPhaseMeanLoop_eq] at hf
+  simp only [phaseMean, List.getElem?_map, List.getElem?_range hi, Option.map_some,
+    Option.some.injEq] at hm hf
+  exact flColMean_error n j hj _ (fun r hr => h r (mem_everyNth _ _ _ _ hr)) m mf hm hf
+
+/-- **add-back in binary64, as executed**: for every cycle length `c ≥ 1` and every sample `t`, the
+phase `t % c` has a computed mean row `m̂`, the computed anomaly row exists with one entry per node,
+and `anomaly[t][j] + m̂[j]` is `observable[t][j]` up to one rounding error of their difference -/
+theorem ieee_anomaly_add_phase_mean (c n : Nat) (obs : Mat) (hc : 0 < c)
+    (h : ∀ r ∈ obs, r.length = n) (t : Nat) (ht : t < obs.length) :
+    ∃ mf a, (flPhaseMeanLoop c n obs)[t % c]? = some (some mf)
+      ∧ (flAnomalyOf c n obs)[t]? = some a
+      ∧ a.length = n
+      ∧ ∀ j, j < n →
+          |a.getD j 0 + mf.getD j 0 - obs[t].getD j 0|
+            ≤ (1 / 2 ^ 53) * |obs[t].getD j 0 - mf.getD j 0| := by
+  have hne := everyNth_phase_ne_nil c hc obs t ht
+  have hrows : ∀ r ∈ everyNth c (t % c) obs, r.length = n :=
+    fun r hr => h r (mem_everyNth _ _ _ _ hr)
+  have hot : obs[t].length = n := h _ (List.getElem_mem _)
+  cases hs : everyNth c (t % c) obs with
+  | nil => exact absurd hs hne
+  | cons r rs =>
+    rw [hs] at hrows
+    obtain ⟨mf, hmf⟩ : ∃ mf, flColMean (r :: rs) = some mf := by simp [flColMean, flColSum]
+    have hrow : flMeanRow c obs (t % c) = mf := by simp [flMeanRow, hs, hmf]
+    have hlen : mf.length = n := by
+      rcases Nat.eq_zero_or_pos n with h0 | h0
+      · have := (ieee_phase_mean_shape c n obs h).2 (t % c) (Nat.mod_lt t hc)
+        refine this.2 mf ?_
+        rw [flPhaseMeanLoop_eq]
+        simp [List.getElem?_range (Nat.mod_lt t hc), hs, hmf]
+      · exact (flColMean_getD n 0 h0 r rs hrows mf hmf).2
+    refine ⟨mf, flVsub obs[t] mf, ?_, ?_, ?_, ?_⟩
+    · rw [flPhaseMeanLoop_eq]
+      simp [List.getElem?_range (Nat.mod_lt t hc), hs, hmf]
+    · rw [flAnomalyOf_closed c n obs hc]
+      simp [ht, hrow]
+    · simp [flVsub, hot, hlen]
+    · intro j hj
+      unfold flVsub
+      rw [zipWith_getD flSub _ _ j (by omega) (by omega)]
+      exact float_addback_error ieee64 _ _
+
+/-- non-vacuity / the model really rounds: `1 + 2⁻⁵³` is a tie and goes to the even neighbour `1`,
+`1/3` is not representable, and a representable sum is returned exactly -/
+example : flAdd 1 (1 / 2 ^ 53) = 1 ∧ flDiv 1 3 ≠ 1 / 3 ∧ flAdd (3 / 2) (-1 / 4) = 5 / 4 := by
+  decide +kernel
+
+example : flPhaseMeanLoop 2 1 [[1], [1 / 3], [1 / 2 ^ 53]] = [some [1 / 2], some [flDiv (1 / 3) 1]] := by
+  decide +kernel
 
 end Pyunicorn.Window
